@@ -10,7 +10,7 @@ COUNTS = {"quick": 1500, "thorough": 40000}
 SHARD = 250
 MAXTS = 2 ** 63 - 1
 
-RULE = ("histories of 4-20 ops over up to 5 concurrently open domain writers on ONE channel of a fresh in-memory "
+RULE = ("histories of 6-30 ops over up to 5 concurrently open domain writers on ONE channel of a fresh in-memory "
         "domain.DB: open(w,start,end?) / write(w,1-6 bytes) / commit(w,end) / close(w) / delete(a,b); stamps from a "
         "14-point alphabet {0,1,5,10,12,15,20,21,25,30,40,50,MAX-1,MAX} (+-1 jitter 10%) so adjacency, zero-length "
         "commits, preset ends and gap filling by another writer are frequent; file size cap drawn from "
@@ -32,99 +32,183 @@ ASSUMES = ["time stamps lie in [TimeStampMin, TimeStampMax] = [0, 2^63-1] (TimeR
 PARTIAL = None
 
 ALPHA = [0, 1, 5, 10, 12, 15, 20, 21, 25, 30, 40, 50, MAXTS - 1, MAXTS]
+LOW = ALPHA[:-2]
 
 
-def stamp(rng, lo=None):
-    xs = ALPHA if lo is None else [x for x in ALPHA if x > lo] or [MAXTS]
-    t = rng.choice(xs)
-    if rng.random() < 0.10:
-        t = min(MAXTS, max(0, t + rng.choice([-1, 1])))
+def stamp(rng, lo=None, hi=None):
+    """a stamp from the alphabet (the two MAX values rarely), optionally in (lo, hi]"""
+    xs = [x for x in ALPHA if (lo is None or x > lo) and (hi is None or x <= hi)]
+    if not xs:
+        return hi if hi is not None else MAXTS
+    low = [x for x in xs if x < MAXTS - 1]
+    t = rng.choice(low) if low and rng.random() < 0.9 else rng.choice(xs)
+    if rng.random() < 0.08:
+        t2 = t + rng.choice([-1, 1])
+        if 0 <= t2 <= MAXTS and (lo is None or t2 > lo) and (hi is None or t2 <= hi):
+            t = t2
     return t
+
+
+class Sim:
+    """rough generator-side picture of the database, used only to steer the choice of
+    mostly-legal operations (it need not be exact)"""
+
+    def __init__(self, cap):
+        self.dom = []          # [s, e] sorted
+        self.w = {}            # id -> dict(start, pe, prev, pend, fs, own)
+        self.dead = []
+        self.cap = cap if cap else 10 ** 9
+
+    def inside(self, t):
+        return any(s <= t < e for s, e in self.dom)
+
+    def next_start(self, t, own=None):
+        xs = [s for s, e in self.dom if s >= t and [s, e] != own]
+        return min(xs) if xs else MAXTS
+
+    def overlaps(self, a, b, own=None):
+        return any(s < b and a < e for s, e in self.dom if [s, e] != own)
 
 
 def gen_case(rng):
     fsz = rng.choice([0, 0, 5, 10, 10, 16, 40])
-    nops = rng.randrange(4, 21)
+    cap = {0: 0, 5: 5, 10: 10, 16: 16, 40: 40}[fsz]
+    sim = Sim(cap)
+    nops = rng.randrange(6, 31)
     ops = []
-    live = {}      # w -> dict(start, end, prev)
-    dead = []
     nextw = 1
     ctr = rng.randrange(0, 200)
-    domains = []   # rough list of committed (s, e) for biasing only
-    for _ in range(nops):
+    while len(ops) < nops:
+        live = [w for w in sim.w]
         x = rng.random()
-        if not live or (x < 0.22 and len(live) < 5):
-            start = stamp(rng)
+        legal = rng.random() < 0.78
+        if not live or (x < 0.20 and len(live) < 5):
+            # ---- open
+            if legal:
+                cands = [t for t in LOW if not sim.inside(t)] + [e for s, e in sim.dom if not sim.inside(e)]
+                start = rng.choice(cands) if cands else stamp(rng)
+                if rng.random() < 0.04:
+                    start = rng.choice([MAXTS - 1, MAXTS])
+            else:
+                if sim.dom and rng.random() < 0.8:
+                    s, e = rng.choice(sim.dom)
+                    start = rng.choice([s, max(s, e - 1), (s + e) // 2, s + 1 if s + 1 < e else s])
+                else:
+                    start = stamp(rng)
             y = rng.random()
-            if y < 0.68:
+            if y < 0.66:
                 end = 0
-            elif y < 0.93:
-                end = stamp(rng, start)
-            elif y < 0.97:
+            elif y < 0.92:
+                nxt = sim.next_start(start)
+                end = stamp(rng, start, nxt if legal and nxt > start else None)
+            elif y < 0.96:
                 end = start
             else:
                 end = max(1, start - rng.choice([1, 3, 5]))   # inverted preset end (malformed)
-            if domains and rng.random() < 0.25:
-                s, e = rng.choice(domains)
-                start = rng.choice([s, e, max(s, e - 1), (s + e) // 2])
-                if end != 0 and rng.random() < 0.5:
-                    end = min(MAXTS, max(1, start + rng.choice([-5, -1, 0, 1, 5, 30])))
             w = nextw
             nextw += 1
             ops.append({"op": "open", "w": w, "start": start, "end": end})
-            live[w] = {"start": start, "end": end, "prev": None}
+            ok = not sim.inside(start) and not (end != 0 and end < start) and \
+                not (end > start and sim.overlaps(start, end))
+            if ok:
+                sim.w[w] = {"start": start, "pe": end, "prev": None, "pend": 0, "fs": 0, "own": None}
             continue
-        if x < 0.50:
-            w = rng.choice(list(live))
+        if x < 0.46:
+            # ---- write
+            w = rng.choice(live)
             n = rng.randrange(1, 7)
             data = [(ctr + i) % 251 for i in range(n)]
             ctr += n
             ops.append({"op": "write", "w": w, "data": data})
+            sim.w[w]["pend"] += n
+            sim.w[w]["fs"] += n
         elif x < 0.80:
-            w = rng.choice(list(live))
-            st = live[w]
-            y = rng.random()
-            if y < 0.62:
-                end = stamp(rng, st["prev"] if st["prev"] is not None else st["start"])
-            elif y < 0.72 and domains:
-                s, e = rng.choice(domains)
-                end = min(MAXTS, rng.choice([s, e, s + 1]))
-            elif y < 0.80:
-                end = min(MAXTS, st["start"] + rng.randrange(1, 7))      # about one tick per byte
-            elif y < 0.90:
-                end = stamp(rng)                              # anything, often backwards
-            elif y < 0.95:
-                end = st["start"]                             # zero-length commit
+            # ---- commit
+            pending = [w for w in live if sim.w[w]["pend"] > 0]
+            w = rng.choice(pending) if pending and rng.random() < 0.9 else rng.choice(live)
+            st = sim.w[w]
+            lo = st["prev"] - 1 if st["prev"] is not None else st["start"]
+            nxt = sim.next_start(st["start"], st["own"])
+            if legal:
+                y = rng.random()
+                if st["pe"]:
+                    end = rng.choice([st["pe"], st["pe"], stamp(rng, lo, st["pe"])])
+                elif y < 0.25 and nxt < MAXTS and nxt > lo:
+                    end = nxt                                   # adjacency: end == next start
+                elif y < 0.45 and lo < st["start"] + st["pend"] <= nxt:
+                    end = st["start"] + st["pend"]              # one tick per byte
+                else:
+                    near = [t for t in ALPHA if lo < t <= nxt][:3]
+                    end = rng.choice(near) if near and rng.random() < 0.75 else stamp(rng, lo, nxt)
             else:
-                end = (st["prev"] or st["start"]) - 1 if (st["prev"] or st["start"]) > 0 else 0
+                y = rng.random()
+                if y < 0.35 and sim.dom:
+                    s, e = rng.choice(sim.dom)
+                    end = min(MAXTS, rng.choice([s + 1, e, (s + e) // 2 + 1]))
+                elif y < 0.55:
+                    end = st["start"]                           # zero-length commit
+                elif y < 0.80 and st["prev"]:
+                    end = max(0, st["prev"] - rng.choice([1, 2, 5]))   # backwards
+                elif y < 0.90 and st["pe"]:
+                    end = min(MAXTS, st["pe"] + rng.choice([1, 5]))    # past the preset end
+                else:
+                    end = stamp(rng)
             ops.append({"op": "commit", "w": w, "end": end})
-            st["prev"] = end
-            if end > st["start"]:
-                domains.append((st["start"], end if st["end"] == 0 else st["end"]))
-        elif x < 0.88:
-            w = rng.choice(list(live))
+            # rough effect
+            if st["pend"] > 0 and not (st["pe"] and end > st["pe"]):
+                sw = st["fs"] >= sim.cap
+                ce = end if (sw or not st["pe"]) else st["pe"]
+                back = st["prev"] is not None and ce < st["prev"] and not (sw and st["pe"])
+                if ce > st["start"] and not back and not sim.overlaps(st["start"], ce, st["own"]):
+                    if st["own"] in sim.dom:
+                        sim.dom.remove(st["own"])
+                    d = [st["start"], ce]
+                    sim.dom.append(d)
+                    sim.dom.sort()
+                    if sw:
+                        st.update(start=ce, prev=None, pend=0, fs=0, own=None)
+                    else:
+                        st.update(prev=ce, own=d)
+        elif x < 0.87:
+            w = rng.choice(live)
             ops.append({"op": "close", "w": w})
-            dead.append(w)
-            del live[w]
+            sim.dead.append(w)
+            del sim.w[w]
         elif x < 0.96:
-            y = rng.random()
-            lim = min([v["start"] for v in live.values()] or [MAXTS])
-            if y < 0.75:
+            # ---- delete
+            lim = min([v["start"] for v in sim.w.values()] or [MAXTS])
+            if rng.random() < 0.85:
                 cands = [t for t in ALPHA if t <= lim] or [0]
                 b = rng.choice(cands)
-                a = rng.choice([t for t in ALPHA if t <= b])
-                if domains and rng.random() < 0.5:
-                    s, e = rng.choice(domains)
+                if sim.dom and rng.random() < 0.6:
+                    s, e = rng.choice(sim.dom)
+                    b = min(lim, rng.choice([e, (s + e) // 2 + 1, s + 2, e + 1 if e < MAXTS else e]))
+                a = rng.choice([t for t in ALPHA if t <= b] or [0])
+                if sim.dom and rng.random() < 0.6:
+                    s, e = rng.choice(sim.dom)
                     a = max(0, min(b, rng.choice([s, s + 1, (s + e) // 2, e])))
+                if rng.random() < 0.05:
+                    a, b = b, a
             else:
-                a, b = stamp(rng), stamp(rng)
+                a, b = stamp(rng), stamp(rng)          # not gated by the open writers
                 if a > b and rng.random() < 0.7:
                     a, b = b, a
             ops.append({"op": "delete", "a": a, "b": b})
+            nd = []
+            for s, e in sim.dom:
+                if a <= s and e <= b:
+                    continue
+                if s < a < e:
+                    nd.append([s, a])
+                if s < b < e:
+                    nd.append([b, e])
+                if not (s < a < e) and not (s < b < e):
+                    nd.append([s, e])
+            if a <= b:
+                sim.dom = sorted(nd)
         else:
-            # malformed: op on a closed / unknown writer, or re-open of an existing id
-            y = rng.random()
-            w = rng.choice(dead) if dead and y < 0.6 else rng.choice([nextw + 3, 1])
+            # ---- malformed: op on a closed / unknown writer, or re-open of an existing id
+            w = rng.choice(sim.dead) if sim.dead and rng.random() < 0.6 else rng.choice([nextw + 3, 1])
             k = rng.choice(["write", "commit", "close", "open"])
             if k == "write":
                 ops.append({"op": "write", "w": w, "data": [7]})
@@ -132,11 +216,16 @@ def gen_case(rng):
                 ops.append({"op": "commit", "w": w, "end": stamp(rng)})
             elif k == "close":
                 ops.append({"op": "close", "w": w})
+                if w in sim.w:
+                    sim.dead.append(w)
+                    del sim.w[w]
+            elif w not in sim.w and w not in sim.dead:
+                ops.append({"op": "open", "w": w, "start": stamp(rng), "end": 0})
+                nextw = max(nextw, w + 1)
+                if not sim.inside(ops[-1]["start"]):
+                    sim.w[w] = {"start": ops[-1]["start"], "pe": 0, "prev": None, "pend": 0, "fs": 0, "own": None}
             else:
                 ops.append({"op": "open", "w": w, "start": stamp(rng), "end": 0})
-                if w not in live and w not in dead:
-                    live[w] = {"start": ops[-1]["start"], "end": 0, "prev": None}
-                    nextw = max(nextw, w + 1)
     return {"file_size": fsz, "ops": ops}
 
 
